@@ -261,3 +261,12 @@ Proof.
   { apply existsb_exists. exists p. split; auto. apply memk_In; auto. }
   rewrite X. reflexivity.
 Qed.
+
+(* a background rollback scheduled late releases with the for-update ts of the FAILED call: locks
+   that a retried call acquired with a newer ts survive it *)
+Lemma late_rollback_spares_newer ks f s k f' :
+  In (k, Pess f') s -> f < f' -> In (k, Pess f') (run_task (TPessRb ks f) s).
+Proof.
+  intros Hin Hlt. apply run_task_In. split; auto. simpl.
+  destruct (memk k ks); simpl; auto. apply N.leb_gt. auto.
+Qed.
